@@ -309,3 +309,11 @@ def t_purge(world):
 _t_c02c = tasks
 def tasks(tier):
     return _t_c02c(tier) + [('purge', t_purge)]
+
+
+
+# ---------------------------------------------------------------- C02.h: opening a position never overwrites another one (shared with C16.a: find_or_create on 16 symbolic slots) - an erased position would leave its shares in the bank total
+_t_c02h = tasks
+def tasks(tier):
+    import specs.C16 as C16
+    return _t_c02h(tier) + [('find_or_create', renamed(C16.t_find_or_create, 'C16.a.', 'C02.h.'))]
